@@ -39,6 +39,26 @@ class Res(wiring.Component):
         super().__init__({})
 
 
+class FlakyMap(MemoryMap):
+    """A project's own MemoryMap subclass whose freeze() hook can fail (it validates something of its own first)."""
+    fail_freeze = False
+
+    def freeze(self):
+        if self.fail_freeze:
+            raise ValueError("FlakyMap: not ready to be frozen (harness-injected failure of the subclass hook)")
+        super().freeze()
+
+
+class FalsyRes(wiring.Component):
+    """A resource whose truth value is False (a container-like peripheral model that is still empty): the memory
+    map identifies resources by identity, never by truth value."""
+    def __init__(self):
+        super().__init__({})
+
+    def __len__(self):
+        return 0
+
+
 def n_cases(tier):
     return 4000 if tier == "quick" else 60000
 
@@ -144,8 +164,8 @@ def run_case(case):
     mon = Mon(trace_len=30)
     lives, models = [], []
     for k, d in enumerate(case["maps"]):
-        lives.append(MemoryMap(addr_width=spell_int(rng, d["aw"]), data_width=spell_int(rng, d["dw"]),
-                               alignment=spell_int(rng, d["al"])))
+        lives.append((MemoryMap if (k == 0 or rng.random() < 0.85) else FlakyMap)(
+            addr_width=spell_int(rng, d["aw"]), data_width=spell_int(rng, d["dw"]), alignment=spell_int(rng, d["al"])))
         models.append(MapModel(d["aw"], d["dw"], d["al"], label=f"M{k}"))
     by_id = {id(m): k for k, m in enumerate(lives)}
     st = {"fresh": 0, "refused_on": set(), "nontrivial": False, "objs": [], "refused_names": []}
@@ -155,7 +175,7 @@ def run_case(case):
         if regs_only:
             r = csr.Register({"a": csr.Field(action.R, rng.randint(1, 12))}, access="r")
         else:
-            r = Res()
+            r = Res() if rng.random() < 0.85 else FalsyRes()
         st["objs"].append(r)
         return r
 
@@ -377,10 +397,22 @@ def run_case(case):
             why = f"{mm.label}.add_window({cm.label}, name={name!r}, addr={addr!r}, sparse={sparse!r})"
             mon.log(why)
             pred = mm.predict_add_window(id(child), True, cm, name, addr, sparse)
+            armed = isinstance(child, FlakyMap) and not cm.frozen and rng.random() < 0.5
+            if armed:
+                child.fail_freeze = True
             try:
                 out, raised = m.add_window(child, name=name, addr=spell_int(rng, addr), sparse=spell_bool(rng, sparse)), None
             except Exception as e:
                 out, raised = None, e
+            if armed:
+                child.fail_freeze = False
+                if raised is not None:
+                    # the window's own freeze() hook failed (or the call was refused before reaching it): whichever
+                    # it was, a call that raised has changed neither map
+                    mon.count("window_freeze_hook_failures")
+                    mon.eq("atomic", snapshot(t), before, f"{why}: raised ({raised}) but changed the query results of {mm.label}")
+                    mon.eq("atomic", snapshot(c), before_child, f"{why}: raised ({raised}) but changed {cm.label}")
+                    return
             if judge(t, pred, raised, out, before, why, name):
                 exp_ratio = 1 if sparse else mm.dw // cm.dw
                 mon.eq("window_ratio", out[2], exp_ratio, f"{why}: ratio")
